@@ -271,6 +271,10 @@ func (s *Schedule) Check(parent, h *Header, now int64) []string {
 	}
 	if now >= 0 && h.Time.Cmp(big.NewInt(now+FutureSeconds)) > 0 {
 		bad = append(bad, RTimeFuture)
+	} else if !h.Time.IsUint64() {
+		// a timestamp that does not fit 64 bits is more than 15 s ahead of any
+		// clock: invalid even where the clock itself is not consulted (uncles)
+		bad = append(bad, RTimeFuture)
 	}
 	if h.ExtraLen > MaxExtra {
 		bad = append(bad, RExtra)
